@@ -3,8 +3,10 @@ CONSTANTS
   Fix <- FixAll
   Scenarios <- AllScenarios
   LateClose = FALSE
+  LeakData = FALSE
 INVARIANT TypeOK
 INVARIANT Inv_Usable
 INVARIANT Inv_NoLeftover
+INVARIANT Inv_DataClosed
 PROPERTY Live_Returns
 CHECK_DEADLOCK FALSE
